@@ -193,4 +193,313 @@ theorem flatten_branches (a b : Nat) (rest : Shape) :
     simp [numel]
   · simp [flatten.model, flatten.spec, torchDim, normAxis, numel]
 
+theorem setAt_getD_self (s : Shape) (a : Nat) : setAt s a (s.getD a 0) = s := by
+  unfold setAt
+  induction s generalizing a with
+  | nil => simp
+  | cons x xs ih =>
+    cases a with
+    | zero => simp
+    | succ n => simp only [List.set_cons_succ, List.getD_cons_succ]; rw [ih]
+
+theorem split_sizes (d c : Nat) (hd : 0 < d) (hc : 0 < c) : splitScalar d c = split.specSizes d c := by
+  unfold splitScalar split.specSizes
+  have hc0 : c ≠ 0 := by omega
+  simp only [hc0, if_false]
+  have hdm := Nat.div_add_mod d c
+  by_cases hr : d % c = 0
+  · have hq : d = c * (d / c) := by omega
+    have hq1 : 1 ≤ d / c := by
+      rcases Nat.eq_zero_or_pos (d / c) with h | h
+      · rw [h] at hq; omega
+      · exact h
+    have e : (d + c - 1) / c = d / c := by
+      apply Nat.div_eq_of_lt_le
+      · rw [Nat.mul_comm (d / c) c]; omega
+      · rw [Nat.add_mul, Nat.one_mul, Nat.mul_comm (d / c) c]; omega
+    simp only [hr, if_true, e, List.append_nil]
+    have m : max (d / c) 1 = d / c := by omega
+    rw [m]
+    have l : c - (c * (d / c) - d) = c := by omega
+    rw [l]
+    have : d / c = (d / c - 1) + 1 := by omega
+    conv => lhs; rw [this, List.replicate_succ']
+  · have hlt := Nat.mod_lt d hc
+    have e : (d + c - 1) / c = d / c + 1 := by
+      apply Nat.div_eq_of_lt_le
+      · rw [Nat.add_mul, Nat.one_mul, Nat.mul_comm (d / c) c]; omega
+      · rw [Nat.add_mul, Nat.add_mul, Nat.one_mul, Nat.mul_comm (d / c) c]; omega
+    simp only [hr, if_false, e]
+    have m : max (d / c + 1) 1 = d / c + 1 := Nat.max_eq_left (Nat.le_add_left 1 _)
+    rw [m, Nat.add_sub_cancel]
+    have l : c - (c * (d / c + 1) - d) = d % c := by
+      rw [Nat.mul_add, Nat.mul_one]; omega
+    rw [l]
+
+theorem chunk_even (q n : Nat) (hq : 0 < q) (hn : 1 < n) :
+    splitNumOutputs (q * n) n = some (chunk.specSizes (q * n) n) := by
+  unfold splitNumOutputs chunk.specSizes
+  have e1 : (q * n + n - 1) / n = q := by
+    apply Nat.div_eq_of_lt_le
+    · omega
+    · rw [Nat.add_mul, Nat.one_mul]; omega
+  have hle : n ≤ q * n := by
+    have := Nat.mul_le_mul_right n hq
+    omega
+  have h0 : ¬ (n = 0 ∨ n > q * n) := by omega
+  have hq0 : q ≠ 0 := by omega
+  have hmul : (n - 1) * q + q = q * n := by
+    have : n = (n - 1) + 1 := by omega
+    conv => rhs; rw [this, Nat.mul_add, Nat.mul_one, Nat.mul_comm]
+  have hlt : (n - 1) * q < q * n := by omega
+  have e2 : (q * n + q - 1) / q = n := by
+    apply Nat.div_eq_of_lt_le
+    · rw [Nat.mul_comm n q]; omega
+    · rw [Nat.add_mul, Nat.one_mul, Nat.mul_comm n q]; omega
+  simp only [h0, if_false, e1, hlt, if_true, hq0, e2]
+  have m : max n 1 = n := by omega
+  rw [m]
+
+theorem roll_shape_one (s : Shape) (shift dim : Int) (a : Nat)
+    (h0 : s.length ≠ 0) (hz : s.getD 0 0 ≠ 0) (ha : normAxis s.length dim = some a)
+    (hlen : (roll.stepIdx (s.getD a 0) (numel s) shift).length = s.getD a 0) :
+    roll.model s [shift] [dim] = some s := by
+  unfold roll.model
+  simp only [h0, hz, if_false, List.isEmpty_cons, List.zip_cons_cons, List.zip_nil_right, List.drop_succ_cons, List.drop_zero,
+    List.drop_nil, List.any_nil, List.foldlM_cons, List.foldlM_nil, List.length_cons, List.length_nil, ha, hlen, setAt_getD_self,
+    ne_eq, not_true_eq_false, Bool.false_eq_true, bind, Option.bind, pure]
+
+
+theorem cat_agrees (ss : List Shape) (dim : Int) (out : Shape)
+    (hne : ss.filter (· != [0]) ≠ []) (h : cat.spec ss dim = some out) : cat.model ss dim = some out := by
+  unfold cat.spec at h
+  unfold cat.model
+  split at h
+  · simp at h
+  · generalize ss.filter (· != [0]) = f at *
+    match f, hne with
+    | [s], _ =>
+      simp only at h ⊢
+      split at h
+      · simp at h
+      · next a ha =>
+        simp only [List.all_nil, if_true, List.foldl_cons, List.foldl_nil, Nat.zero_add, setAt_getD_self] at h
+        exact h
+    | s :: t :: rest, _ =>
+      simp only at h ⊢
+      unfold concatOp
+      by_cases hl : s.length = 0
+      · simp [hl] at h
+      · simp only [hl, if_false] at h
+        exact h
+
+theorem all_nonneg_iff (l : List Int) : l.all (0 ≤ ·) = !l.any (· < 0) := by
+  induction l with
+  | nil => rfl
+  | cons x xs ih =>
+    simp only [List.all_cons, List.any_cons, ih, Bool.not_or]
+    congr 1
+    by_cases h : 0 ≤ x <;> simp [h] <;> omega
+
+theorem tile_agrees (s : Shape) (dims : List Int) (h : dims.length ≤ s.length) :
+    tile.model s dims = tile.spec s dims := by
+  unfold tile.model tile.spec tileOp
+  have h2 : ¬ s.length < dims.length := by omega
+  have h3 : dims.length - s.length = 0 := by omega
+  by_cases hgt : s.length > dims.length
+  · simp only [hgt, if_true, h3, List.replicate_zero, List.nil_append, List.length_append, List.length_replicate,
+      List.all_append, all_nonneg_iff]
+    have hl : (s.length - dims.length + dims.length == s.length) = true := by simp; omega
+    have hr : (List.replicate (s.length - dims.length) (1:Int)).any (· < 0) = false := by
+      simp [List.any_replicate]
+    simp only [hl, hr, Bool.not_false, Bool.true_and]
+    cases hd : dims.any (· < 0) <;> simp
+  · have heq : dims.length = s.length := by omega
+    simp only [hgt, h2, if_false, h3, heq, Nat.sub_self, List.replicate_zero, List.nil_append, all_nonneg_iff, beq_self_eq_true,
+      Bool.true_and]
+    cases hd : dims.any (· < 0) <;> simp
+
+theorem normAxis_some (r : Nat) (a : Int) (k : Nat) (h : normAxis r a = some k) :
+    ¬ ((if a < 0 then a + (r:Int) else a) < 0) ∧ k = (if a < 0 then a + (r:Int) else a).toNat ∧ k < r := by
+  unfold normAxis at h
+  split at h
+  · injection h with h; subst h
+    have : ¬ a < 0 := by omega
+    rw [if_neg this]; exact ⟨by omega, rfl, by omega⟩
+  · split at h
+    · injection h with h; subst h
+      have : a < 0 := by omega
+      rw [if_pos this]; exact ⟨by omega, rfl, by omega⟩
+    · simp at h
+
+theorem normAxes_some (r : Nat) (dims : List Int) (q : List Nat) (h : normAxes r dims = some q) :
+    (dims.map (fun a => if a < 0 then a + (r:Int) else a)).any (· < 0) = false
+    ∧ q = (dims.map (fun a => if a < 0 then a + (r:Int) else a)).map Int.toNat
+    ∧ q.all (· < r) = true ∧ q.length = dims.length := by
+  unfold normAxes at h
+  induction dims generalizing q with
+  | nil => simp at h; subst h; simp
+  | cons a as ih =>
+    rw [List.mapM_cons] at h
+    cases ha : normAxis r a with
+    | none => simp [ha] at h
+    | some k =>
+      cases hm : List.mapM (normAxis r) as with
+      | none => simp [ha, hm] at h
+      | some q' =>
+        simp [ha, hm] at h
+        subst h
+        obtain ⟨h1, h2, h3⟩ := normAxis_some r a k ha
+        obtain ⟨i1, i2, i3, i4⟩ := ih q' hm
+        refine ⟨?_, ?_, ?_, ?_⟩
+        · simp only [List.map_cons, List.any_cons, i1, Bool.or_false]; simpa using h1
+        · simp only [List.map_cons]; rw [← i2, ← h2]
+        · simp only [List.all_cons, i3, Bool.and_true]; simpa using h3
+        · simp [i4]
+
+theorem permute_agrees (s : Shape) (dims : List Int) (out : Shape) (hne : dims ≠ [])
+    (h : permute.spec s dims = some out) : permute.model s dims = some out := by
+  unfold permute.spec at h
+  unfold permute.model transposeOp isPerm
+  split at h
+  · simp at h
+  · next hlen =>
+    have hlen : dims.length = s.length := by simpa using hlen
+    cases hq : normAxes s.length dims with
+    | none => simp [hq] at h
+    | some q =>
+      simp only [hq] at h
+      obtain ⟨i1, i2, i3, i4⟩ := normAxes_some s.length dims q hq
+      have he : dims.isEmpty = false := by cases dims <;> simp_all
+      rw [← hlen] at i1 i2
+      simp only [he, Bool.false_eq_true, if_false, i1, ← i2]
+      split at h
+      · simp at h
+      · next hd =>
+        have : (q.length == s.length && q.all (· < s.length) && !hasDup q) = true := by
+          simp [i4, hlen, i3, hd]
+        simp only [this, if_true]
+        exact h
+
+def fneg (d : Int) : Int := if d == -1 then 1 else d
+
+theorem expand_rev (a : List Nat) (t : List Int) (o : List Nat) (h : expand.specRev a t = some o) :
+    (t.map fneg).any (· < 0) = false ∧ bcastRev a ((t.map fneg).map Int.toNat) = some o := by
+  induction t generalizing a o with
+  | nil =>
+    cases a with
+    | nil => simp [expand.specRev] at h; subst h; simp [bcastRev]
+    | cons x xs => simp [expand.specRev] at h
+  | cons d ds ih =>
+    cases a with
+    | nil =>
+      simp only [expand.specRev] at h
+      split at h
+      · simp at h
+      · next hd =>
+        cases hr : expand.specRev [] ds with
+        | none => simp [hr] at h
+        | some o' =>
+          simp [hr] at h
+          obtain ⟨i1, i2⟩ := ih [] o' hr
+          have hf : fneg d = d := by unfold fneg; have : ¬ (d == -1) = true := by simp; omega
+                                     simp [this]
+          have i2' : ((ds.map fneg).map Int.toNat) = o' := by simpa [bcastRev] using i2
+          refine ⟨?_, ?_⟩
+          · simp only [List.map_cons, List.any_cons, i1, hf, Bool.or_false]; simp; omega
+          · simp only [List.map_cons, hf, bcastRev, i2']; rw [← h]
+    | cons x xs =>
+      simp only [expand.specRev] at h
+      split at h
+      · next hd =>
+        have hd : d = -1 := by simpa using hd
+        cases hr : expand.specRev xs ds with
+        | none => simp [hr] at h
+        | some o' =>
+          simp [hr] at h
+          obtain ⟨i1, i2⟩ := ih xs o' hr
+          have hf : fneg d = 1 := by subst hd; rfl
+          refine ⟨?_, ?_⟩
+          · simp only [List.map_cons, List.any_cons, i1, hf, Bool.or_false]; decide
+          · simp only [List.map_cons, hf]
+            show bcastRev (x :: xs) (1 :: _) = _
+            unfold bcastRev
+            rw [i2, ← h]
+            by_cases hx : x = 1 <;> simp [hx]
+      · next hd =>
+        have hd : d ≠ -1 := by simpa using hd
+        have hf : fneg d = d := by unfold fneg; simp [hd]
+        split at h
+        · simp at h
+        · next hneg =>
+          split at h
+          · next heq =>
+            have heq : (x : Int) = d := by simpa using heq
+            cases hr : expand.specRev xs ds with
+            | none => simp [hr] at h
+            | some o' =>
+              simp [hr] at h
+              obtain ⟨i1, i2⟩ := ih xs o' hr
+              refine ⟨?_, ?_⟩
+              · simp only [List.map_cons, List.any_cons, i1, hf, Bool.or_false]; simp; omega
+              · simp only [List.map_cons, hf]
+                have : d.toNat = x := by omega
+                rw [this]
+                unfold bcastRev
+                rw [i2]
+                simp [← h]
+          · next hne =>
+            split at h
+            · next h1 =>
+              have h1 : x = 1 := by simpa using h1
+              cases hr : expand.specRev xs ds with
+              | none => simp [hr] at h
+              | some o' =>
+                simp [hr] at h
+                obtain ⟨i1, i2⟩ := ih xs o' hr
+                refine ⟨?_, ?_⟩
+                · simp only [List.map_cons, List.any_cons, i1, hf, Bool.or_false]; simp; omega
+                · simp only [List.map_cons, hf]
+                  unfold bcastRev
+                  subst h1
+                  by_cases hb : 1 = d.toNat
+                  · rw [i2]; simp [← hb, ← h]
+                  · rw [i2]; simp [hb, ← h]
+            · simp at h
+
+theorem expand_agrees (s : Shape) (size : List Int) (out : Shape)
+    (h : expand.spec s size = some out) : expand.model s size = some out := by
+  unfold expand.spec at h
+  unfold expand.model expandOp
+  cases hr : expand.specRev s.reverse size.reverse with
+  | none => simp [hr] at h
+  | some o =>
+    simp only [hr, Option.map_some] at h
+    obtain ⟨i1, i2⟩ := expand_rev s.reverse size.reverse o hr
+    have e1 : (size.map (fun d => if d == -1 then 1 else d)) = size.map fneg := rfl
+    have a1 : ((size.map fneg).any (· < 0)) = false := by
+      rw [← List.any_reverse, ← List.map_reverse]; exact i1
+    have a2 : ((size.map fneg).map Int.toNat).reverse = (size.reverse.map fneg).map Int.toNat := by
+      rw [List.map_reverse, List.map_reverse]
+    simp only [e1, a1, Bool.false_eq_true, if_false, a2, i2, Option.map_some]
+    exact h
+
+theorem broadcast_to_agrees (s : Shape) (size : List Int) (out : Shape) (hn : ∀ d ∈ size, d ≠ -1)
+    (h : broadcast_to.spec s size = some out) : broadcast_to.model s size = some out := by
+  have hm' : ∀ (l : List Int), (∀ d ∈ l, d ≠ -1) → l.map (fun d => if d == -1 then 1 else d) = l := by
+    intro l
+    induction l with
+    | nil => intro _; rfl
+    | cons x xs ih =>
+      intro hl
+      have hx : x ≠ -1 := hl x (by simp)
+      simp only [List.map_cons]
+      rw [ih (fun d hd => hl d (by simp [hd]))]
+      simp [hx]
+  have hm := hm' size hn
+  have := expand_agrees s size out h
+  unfold expand.model at this
+  rw [hm] at this
+  exact this
+
 end OV.Lemmas.C08
